@@ -19,6 +19,9 @@
 pub mod typegen;
 /// Utilities for handling Type Registries
 pub mod utils;
+/// Verification hooks: map iteration order as an externally owned choice point.
+#[cfg(feature = "verif-hooks")]
+pub mod verif_hooks;
 
 pub use typegen::{
     error::TypegenError,
